@@ -78,6 +78,8 @@ CHECKS["C02"] = {
     "units": [
         plain("regress", "^TestRegress"),
         rapid("ledger", "^TestLedger$", 480, 40000, qs=8, ts=16),
+        rapid("sched", "^TestSchedLedger$", 300, 24000, qs=6, ts=16),
+        plain("schedenum", "^TestSchedLedgerEnum$", qs=16, ts=16, ttimeout=3300),
     ],
 }
 
@@ -163,6 +165,8 @@ CHECKS["C16"] = {
     "assumptions": ["Lightning backend refuses invoices above 2^40 sat like real backends", "totals < 2^62"],
     "units": [
         rapid("balances", "^TestBalances$", 400, 40000, qs=8, ts=16),
+        rapid("sched", "^TestSchedTotals$", 300, 24000, qs=6, ts=16),
+        plain("schedenum", "^TestSchedTotalsEnum$", qs=16, ts=16, ttimeout=3300),
     ],
 }
 
@@ -199,6 +203,8 @@ CHECKS["C06"] = {
     "units": [
         plain("regress", "^TestRegress"),
         rapid("rejected", "^TestRejected$", 240, 40000, qs=8, ts=16),
+        rapid("sched", "^TestSchedRefused$", 300, 24000, qs=6, ts=16),
+        plain("schedenum", "^TestSchedRefusedEnum$", qs=16, ts=16, ttimeout=3300),
     ],
 }
 
